@@ -25,7 +25,7 @@ type minput struct {
 }
 
 const (
-	childAddressSpace = 3 << 30 // RLIMIT_AS of the decoding child
+	childAddressSpace = 2 << 30 // RLIMIT_AS of the decoding child
 	allocPerByte      = 64      // allocation allowed per input byte ...
 	allocSlack        = 16 << 20 // ... plus a constant covering the documented caps (65535/65536-entry maps)
 )
@@ -70,6 +70,13 @@ func runChild() {
 		}()
 		after := heapAllocs(sample)
 		fmt.Fprintf(w, "R %d %d %s\n", idx, after-before, lib.Show(out))
+		if after-before > 32<<20 {
+			// the Go runtime never unmaps heap arenas: leave the rest to a fresh process, so that the
+			// address-space limit keeps measuring one decode and not the history of the process
+			fmt.Fprintf(w, "X %d\n", idx)
+			w.Flush()
+			os.Exit(0)
+		}
 		w.Flush()
 		idx++
 	}
@@ -83,7 +90,7 @@ func (h *H) decodeInChild(inputs []minput) {
 	}
 	next := 0
 	restarts := 0
-	for next < len(inputs) && restarts < 40 {
+	for next < len(inputs) && restarts < 60 {
 		var sb strings.Builder
 		for _, m := range inputs[next:] {
 			hc := 0
@@ -113,7 +120,7 @@ func (h *H) decodeInChild(inputs []minput) {
 			close(lines)
 		}()
 		started, done := -1, -1 // relative indices
-		timedOut := false
+		timedOut, voluntary := false, false
 	loop:
 		for {
 			select {
@@ -122,6 +129,8 @@ func (h *H) decodeInChild(inputs []minput) {
 					break loop
 				}
 				switch {
+				case strings.HasPrefix(l, "X "):
+					voluntary = true
 				case strings.HasPrefix(l, "S "):
 					started, _ = strconv.Atoi(l[2:])
 				case strings.HasPrefix(l, "R "):
@@ -144,6 +153,11 @@ func (h *H) decodeInChild(inputs []minput) {
 		if done+1 >= len(inputs)-next && werr == nil {
 			return
 		}
+		if voluntary && werr == nil {
+			next += done + 1
+			h.o.Stats["mal-child-restarts"]++
+			continue
+		}
 		// the child died (or hung) while decoding input `started`
 		bad := started
 		if bad <= done {
@@ -162,10 +176,13 @@ func (h *H) decodeInChild(inputs []minput) {
 		if timedOut {
 			name = "timeout:decode"
 		}
-		h.o.Monitor(name, in, fmt.Sprintf("%s input of %d bytes (%s): child process %v; stderr: %s", m.tag, len(m.bs), entryName(m), werr, tail))
+		h.roundtrip(name, in, fmt.Sprintf("%s input of %d bytes (%s): child process %v; stderr: %s", m.tag, len(m.bs), entryName(m), werr, tail))
 		h.o.Stats["mal-crashed"]++
 		next += bad + 1
 		restarts++
+	}
+	if next < len(inputs) {
+		h.o.Monitor("crash:decode", nil, fmt.Sprintf("gave up after %d crashed children; %d inputs not decoded", restarts, len(inputs)-next))
 	}
 }
 
@@ -182,7 +199,7 @@ func entryName(m minput) string {
 func (h *H) childResult(m minput, alloc uint64, term string) {
 	in := decodeIn(m.op, m.hc, m.kind, m.bs)
 	if strings.HasPrefix(term, "(2 ") { // a panic inside the decoder
-		h.o.Monitor("panic:decode", in, m.tag+" "+entryName(m)+": "+term)
+		h.roundtrip("panic:decode", in, m.tag+" "+entryName(m)+": "+term)
 		h.o.Stats["mal-panicked"]++
 		return
 	}
@@ -191,11 +208,6 @@ func (h *H) childResult(m minput, alloc uint64, term string) {
 	}
 	h.o.Case("mal:"+m.tag, len(m.bs) > 4, in, parseTerm(term))
 	if alloc > allocPerByte*uint64(len(m.bs))+allocSlack {
-		h.allocHits++
-		if h.allocHits <= 5 {
-			h.o.Monitor("alloc:decode", in, fmt.Sprintf("%s: decoding %d bytes with %s allocated %d bytes (bound %d*len+%d)", m.tag, len(m.bs), entryName(m), alloc, allocPerByte, allocSlack))
-		} else {
-			h.o.Stats["monitor:alloc:decode"]++
-		}
+		h.roundtrip("alloc:decode", in, fmt.Sprintf("%s: decoding %d bytes with %s allocated %d bytes (bound %d*len+%d)", m.tag, len(m.bs), entryName(m), alloc, allocPerByte, allocSlack))
 	}
 }
